@@ -1363,6 +1363,274 @@ fn run_fwd_residue_case(h: &H, out: &mut Out, idx: &str) {
     s.send(Cmd::Close);
 }
 
+
+// ---------------------------------------------------------------------------------------------
+// `life`: one client instance through a long mixed sequence (state that must not survive a call)
+// ---------------------------------------------------------------------------------------------
+/// A user type whose `Serialize` fails (0), panics with a String (1), a &'static str (2) or a non-string payload (3).
+struct BadSer(u8);
+impl serde::Serialize for BadSer {
+    fn serialize<S: serde::Serializer>(&self, _s: S) -> Result<S::Ok, S::Error> {
+        match self.0 {
+            0 => Err(serde::ser::Error::custom("this value refuses to be serialized")),
+            1 => panic!("{}", String::from("serializer panicked (String)")),
+            2 => panic!("serializer panicked (&'static str)"),
+            _ => std::panic::panic_any(42u32),
+        }
+    }
+}
+/// A user type whose `Deserialize` always fails.
+#[derive(Debug)]
+struct BadDe;
+impl<'de> serde::Deserialize<'de> for BadDe {
+    fn deserialize<D: serde::Deserializer<'de>>(_d: D) -> Result<Self, D::Error> {
+        Err(serde::de::Error::custom("this type refuses every value"))
+    }
+}
+
+/// Answer requests of caller `c` as `how` until its result arrives.
+/// how: 0 = matching response, 1 = error response (ec 7) under its id, 2 = no answer.
+fn serve_until(s: &mut Session, c: usize, how: u8, wd: Duration) -> Option<Result<Value, RepeError>> {
+    if let Some(p) = s.stash.iter().position(|x| x.0 == c) {
+        return Some(s.stash.remove(p).1);
+    }
+    let deadline = Instant::now() + wd;
+    loop {
+        let pending: Vec<RawFrame> = std::mem::take(&mut s.req_stash);
+        for f in pending {
+            if caller_of(&f) == Some(c) && f.h.notify == 0 {
+                match how {
+                    0 => s.send(Cmd::Send(vec![response_v(f.h.id, false, c as i64, c as i64, variant_of(&f))])),
+                    1 => s.send(Cmd::Send(vec![error_response(f.h.id, 7)])),
+                    _ => {}
+                }
+            } else {
+                s.req_stash.push(f);
+            }
+        }
+        match s.ev.recv_timeout(deadline.saturating_duration_since(Instant::now()).min(Duration::from_millis(50))) {
+            Ok(Event::Req(f)) => s.req_stash.push(f),
+            Ok(Event::Res(x, r)) if x == c => return Some(r),
+            Ok(Event::Res(x, r)) => s.stash.push((x, r)),
+            Ok(e) => s.srv_stash.push_back(e),
+            Err(_) if Instant::now() >= deadline => return None,
+            Err(_) => {}
+        }
+    }
+}
+
+fn run_life_case(h: &H, out: &mut Out, idx: &str, kind: usize, seed: u64) {
+    let kname = KINDS[kind];
+    let op = format!("life {} {} {}", idx, kind, seed);
+    out.begin(&op);
+    let ops = [op.clone()];
+    let Ok(mut s) = h.open(kind) else { return };
+    s.send(Cmd::AutoRead);
+    let _ = s.srv_done();
+    let mut r = Rng::new(seed);
+    let mut verdict = "ok".to_string();
+    let mut next_c = 0usize;
+    let mut fresh = |n: &mut usize| { *n += 1; *n };
+    // after every step an ordinary call must be served as on a fresh client
+    macro_rules! check_served {
+        ($step:expr) => {{
+            let c = fresh(&mut next_c);
+            let v = r.below(NVARIANTS as u64) as usize;
+            s.call_v(h, c, v, None);
+            let got = serve_until(&mut s, c, 0, call_watchdog());
+            if own(&got, c as i64) != "own" {
+                out.oracle_fail(&format!("mux.{}.life.{}", kname, $step), &format!("after step `{}` a {} call on the same client returned {}", $step, variant_name(variant_for(kind, v)), own(&got, c as i64)), &ops);
+                if own(&got, c as i64) == "HANG" { saw_hang(); }
+                verdict = "bad".into();
+            }
+        }};
+    }
+    check_served!("connect");
+    let mut steps: Vec<&str> = vec!["zero_timeout", "short_timeout", "error_response", "ser_err", "ser_panic", "de_err", "notifies", "batch", "cancel", "forward", "resubscribe", "oversize"];
+    r.shuffle(&mut steps);
+    for step in steps {
+        match step {
+            "zero_timeout" | "short_timeout" => {
+                let c = fresh(&mut next_c);
+                let t = if step == "zero_timeout" { Duration::ZERO } else { Duration::from_millis(20) };
+                s.call_v(h, c, r.below(NVARIANTS as u64) as usize, Some(t));
+                let got = serve_until(&mut s, c, 2, call_watchdog());
+                if !matches!(&got, Some(Err(e)) if cls(e) == "Timeout") {
+                    out.oracle_fail(&format!("mux.{}.life.{}", kname, step), &format!("an unanswered call with a {:?} timeout returned {}", t, own(&got, c as i64)), &ops);
+                    verdict = "bad".into();
+                }
+                // its late answer
+                let late: Vec<RawFrame> = std::mem::take(&mut s.req_stash);
+                for f in late {
+                    if caller_of(&f) == Some(c) {
+                        s.send(Cmd::Send(vec![response_v(f.h.id, false, c as i64, c as i64, variant_of(&f))]));
+                    } else {
+                        s.req_stash.push(f);
+                    }
+                }
+            }
+            "error_response" => {
+                let c = fresh(&mut next_c);
+                s.call_v(h, c, r.below(NVARIANTS as u64) as usize, None);
+                let got = serve_until(&mut s, c, 1, call_watchdog());
+                if !matches!(&got, Some(Err(RepeError::ServerError { .. }))) {
+                    out.oracle_fail(&format!("mux.{}.life.{}", kname, step), &format!("a call answered with an error frame returned {}", own(&got, c as i64)), &ops);
+                    verdict = "bad".into();
+                }
+            }
+            "ser_err" | "ser_panic" => {
+                // a user `Serialize` that fails / panics: nothing is sent, nothing stays behind
+                for which in if step == "ser_err" { vec![0u8] } else { vec![1u8, 2, 3] } {
+                    let outcome = match s.cl.clone() {
+                        Cl::B(cl) => std::thread::spawn(move || cl.call_json("/t", &BadSer(which)).map(|_| ())).join().map_err(|_| ()),
+                        Cl::A(cl) => h.rt.block_on(async { tokio::spawn(async move { cl.call_json("/t", &BadSer(which)).await.map(|_| ()) }).await }).map_err(|_| ()),
+                        Cl::W(cl) => h.rt.block_on(async { tokio::spawn(async move { cl.call_json("/t", &BadSer(which)).await.map(|_| ()) }).await }).map_err(|_| ()),
+                    };
+                    out.count(&format!("mux.{}.life.badser.{}", kname, match &outcome { Ok(Ok(())) => "sent", Ok(Err(_)) => "err", Err(()) => "panicked" }));
+                    if matches!(outcome, Ok(Ok(()))) {
+                        out.oracle_fail(&format!("mux.{}.life.{}", kname, step), "a call whose body cannot be serialized reported success", &ops);
+                        verdict = "bad".into();
+                    }
+                }
+            }
+            "de_err" => {
+                let c = fresh(&mut next_c);
+                let tx = s.ev_tx.clone();
+                let path = vpath(c, 2);
+                let body = req_body(c);
+                match s.cl.clone() {
+                    Cl::B(cl) => { std::thread::spawn(move || { let r = cl.call_typed_json::<&str, Value, BadDe>(&path, &body).map(|_| Value::Null); let _ = tx.send(Event::Res(c, r)); }); }
+                    Cl::A(cl) => { h.rt.spawn(async move { let r = cl.call_typed_json::<&str, Value, BadDe>(&path, &body).await.map(|_| Value::Null); let _ = tx.send(Event::Res(c, r)); }); }
+                    Cl::W(cl) => { h.rt.spawn(async move { let r = cl.call_typed_json::<&str, Value, BadDe>(&path, &body).await.map(|_| Value::Null); let _ = tx.send(Event::Res(c, r)); }); }
+                }
+                let got = serve_until(&mut s, c, 0, call_watchdog());
+                if !matches!(&got, Some(Err(_))) {
+                    out.oracle_fail(&format!("mux.{}.life.{}", kname, step), &format!("a response that the caller's type cannot decode gave {}", own(&got, c as i64)), &ops);
+                    verdict = "bad".into();
+                }
+            }
+            "notifies" => {
+                let nb = json!({"n": 1});
+                match s.cl.clone() {
+                    Cl::B(cl) => { let _ = cl.notify_json("/n", &nb); let _ = cl.notify_typed_json("/n", &nb); let _ = cl.notify_typed_beve("/n", &nb); let _ = cl.notify_with_formats("/n", 1, None, 0); }
+                    Cl::A(cl) => h.rt.block_on(async { let _ = cl.notify_json("/n", &nb).await; let _ = cl.notify_typed_json("/n", &nb).await; let _ = cl.notify_typed_beve("/n", &nb).await; let _ = cl.notify_with_formats("/n", 1, None, 0).await; }),
+                    Cl::W(cl) => h.rt.block_on(async { let _ = cl.notify_json("/n", &nb).await; let _ = cl.notify_typed_json("/n", &nb).await; let _ = cl.notify_typed_beve("/n", &nb).await; let _ = cl.notify_with_formats("/n", 1, None, 0).await; }),
+                }
+            }
+            "batch" => {
+                let base = next_c + 1;
+                next_c += 3;
+                let reqs: Vec<(String, Value)> = (0..3).map(|j| (vpath(base + j, 0), req_body(base + j))).collect();
+                let (btx, brx) = smpsc::channel::<Vec<Result<Value, RepeError>>>();
+                match s.cl.clone() {
+                    Cl::B(cl) => { std::thread::spawn(move || { let _ = btx.send(cl.batch_json(reqs)); }); }
+                    Cl::A(cl) => { h.rt.spawn(async move { let _ = btx.send(cl.batch_json(reqs).await); }); }
+                    Cl::W(cl) => { h.rt.spawn(async move { let _ = btx.send(cl.batch_json_with_timeout(reqs, CALL_TIMEOUT).await); }); }
+                }
+                let deadline = Instant::now() + call_watchdog();
+                let mut res = None;
+                while Instant::now() < deadline && res.is_none() {
+                    if let Ok(x) = brx.try_recv() { res = Some(x); break; }
+                    match s.ev.recv_timeout(Duration::from_millis(20)) {
+                        Ok(Event::Req(f)) if f.h.notify == 0 => { let c = caller_of(&f).unwrap_or(0); s.send(Cmd::Send(vec![response_v(f.h.id, false, c as i64, c as i64, 0)])); }
+                        Ok(Event::Res(x, r)) => s.stash.push((x, r)),
+                        _ => {}
+                    }
+                }
+                let ok = matches!(&res, Some(v) if v.len() == 3 && v.iter().enumerate().all(|(j, r)| matches!(r, Ok(val) if tag_of(val) == Some((base + j) as i64))));
+                if !ok {
+                    out.oracle_fail(&format!("mux.{}.life.batch", kname), "a batch of three on a used client was not answered slot by slot", &ops);
+                    verdict = "bad".into();
+                }
+            }
+            "cancel" if kind != 0 => {
+                let c = fresh(&mut next_c);
+                s.call_v(h, c, r.below(NVARIANTS as u64) as usize, None);
+                // wait until the request is at the server, abort, then its late answer
+                let deadline = Instant::now() + call_watchdog();
+                let mut seen = None;
+                while Instant::now() < deadline && seen.is_none() {
+                    match s.ev.recv_timeout(Duration::from_millis(20)) {
+                        Ok(Event::Req(f)) if caller_of(&f) == Some(c) => seen = Some(f),
+                        Ok(Event::Req(f)) => s.req_stash.push(f),
+                        Ok(Event::Res(x, r)) => s.stash.push((x, r)),
+                        _ => {}
+                    }
+                }
+                let _ = s.abort(h, c);
+                if let Some(f) = seen {
+                    s.send(Cmd::Send(vec![response_v(f.h.id, false, c as i64, c as i64, variant_of(&f))]));
+                }
+            }
+            "forward" if kind == 1 => {
+                let c = fresh(&mut next_c);
+                s.fwd(h, c, 1_000_000 + c as u64, None);
+                let got = match s.req_or_res(c, 1_000_000 + c as u64) {
+                    Ok(()) => { s.send(Cmd::Send(vec![response(1_000_000 + c as u64, false, c as i64, c as i64)])); s.res_of(c, call_watchdog()) }
+                    Err(r) => r,
+                };
+                if own(&got, c as i64) != "own" {
+                    out.oracle_fail(&format!("mux.{}.life.forward", kname), &format!("forward_message on a used client returned {}", own(&got, c as i64)), &ops);
+                    verdict = "bad".into();
+                }
+            }
+            "resubscribe" if kind == 2 => {
+                if let Cl::W(w) = &s.cl {
+                    let rx1 = w.subscribe_notifies();
+                    let second = w.subscribe_notifies().is_err(); // a live subscription is not replaced silently
+                    s.send(Cmd::Send(vec![response(77, true, 501, -1)]));
+                    let got1 = rx1.ok().and_then(|mut rx| h.rt.block_on(async { tokio::time::timeout(call_watchdog(), rx.recv()).await.ok().flatten() }));
+                    w.unsubscribe_notifies();
+                    s.send(Cmd::Send(vec![response(77, true, 502, -1)])); // nobody listens: dropped
+                    let rx2 = w.subscribe_notifies();
+                    s.send(Cmd::Send(vec![response(77, true, 503, -1)]));
+                    let got2 = rx2.ok().and_then(|mut rx| h.rt.block_on(async {
+                        // 502 must not show up late; the first thing the new subscriber sees is 503 (502 may only have been dropped)
+                        tokio::time::timeout(call_watchdog(), rx.recv()).await.ok().flatten()
+                    }));
+                    let t1 = got1.and_then(|m| serde_json::from_slice::<Value>(&m.body).ok()).and_then(|v| tag_of(&v));
+                    let t2 = got2.and_then(|m| serde_json::from_slice::<Value>(&m.body).ok()).and_then(|v| tag_of(&v));
+                    if !second || t1 != Some(501) || !(t2 == Some(503) || t2 == Some(502)) {
+                        out.oracle_fail("mux.ws.life.resubscribe", &format!("subscribe / unsubscribe / subscribe: second live subscribe refused = {}, first subscriber got {:?}, new subscriber got {:?}", second, t1, t2), &ops);
+                        verdict = "bad".into();
+                    }
+                    w.unsubscribe_notifies();
+                }
+            }
+            "oversize" if kind == 2 => {
+                // exactly at the assumed peer frame limit is sent, one byte more is refused; nothing sticks
+                if let Cl::W(w) = s.cl.clone() {
+                    let limit = w.limits().assumed_peer_frame_limit.unwrap_or(16 << 20);
+                    let c = fresh(&mut next_c);
+                    let path = vpath(c, 12);
+                    let overhead = 48 + path.len();
+                    for (extra, expect_refused) in [(0usize, false), (1, true)] {
+                        let body = vec![b' '; limit - overhead + extra];
+                        let p2 = path.clone();
+                        let w2 = w.clone();
+                        let tx = s.ev_tx.clone();
+                        h.rt.spawn(async move {
+                            let r = w2.call_with_formats(&p2, 1, Some(&body), 0).await.and_then(msg_to_value);
+                            let _ = tx.send(Event::Res(c, r));
+                        });
+                        let got = serve_until(&mut s, c, 0, call_watchdog());
+                        let refused = matches!(&got, Some(Err(RepeError::MessageTooLarge { .. })));
+                        if refused != expect_refused || (!expect_refused && own(&got, c as i64) != "own") {
+                            out.oracle_fail("mux.ws.life.oversize", &format!("request of limit{:+} bytes: refused = {}, result {}", extra as i64, refused, own(&got, c as i64)), &ops);
+                            verdict = "bad".into();
+                        }
+                    }
+                }
+            }
+            _ => continue,
+        }
+        out.count(&format!("mux.{}.life.step.{}", kname, step));
+        check_served!(step);
+    }
+    out.case(&op, &format!("{} {}", idx, verdict), true);
+    s.send(Cmd::Close);
+}
+
 fn permutations(n: usize) -> Vec<Vec<usize>> {
     fn go(cur: &mut Vec<usize>, used: &mut Vec<bool>, n: usize, out: &mut Vec<Vec<usize>>) {
         if cur.len() == n {
@@ -2859,6 +3127,7 @@ fn main() {
                 }
                 Some("seq") if w.len() >= 5 => run_seq_case(&h, &mut out, &idx, w[2].parse().unwrap(), w[3].parse().unwrap(), w[4].parse().unwrap(), 0),
                 Some("seqbig") if w.len() >= 6 => run_seq_case(&h, &mut out, &idx, w[2].parse().unwrap(), w[3].parse().unwrap(), w[4].parse().unwrap(), w[5].parse().unwrap()),
+                Some("life") if w.len() >= 4 => run_life_case(&h, &mut out, &idx, w[2].parse().unwrap(), w[3].parse().unwrap()),
                 Some("fwd") if w.len() >= 4 => run_fwd_case(&h, &mut out, &idx, w[3]),
                 Some("batch") if w.len() >= 6 => {
                     run_batch_case(&h, &mut out, &idx, &BatchCase { kind: w[2].parse().unwrap(), n: w[3].parse().unwrap(), w: w[4].parse().unwrap(), order: if w[5] == "rev" { vec![usize::MAX] } else { w[5].split(',').filter_map(|x| x.parse().ok()).collect() } });
@@ -2930,6 +3199,12 @@ fn main() {
         for (t, k, nbig) in if args.thorough() { vec![(8, 1500, 24), (4, 2000, 24)] } else { vec![(8, 500, 8)] } {
             run_seq_case(&h, &mut out, &format!("q{q}"), 2, t, k, nbig);
             q += 1;
+        }
+        for kind in 0..3 {
+            for _ in 0..(if args.thorough() { 12 } else { 2 }) {
+                run_life_case(&h, &mut out, &format!("l{q}"), kind, rng.next() % 1_000_000);
+                q += 1;
+            }
         }
         for mode in ["ids", "dup", "reuse"] {
             run_fwd_case(&h, &mut out, &format!("f{q}"), mode);
